@@ -402,7 +402,7 @@ func genExtra(g *core.Gen) {
 		g.Case("rfc6979", true, fmt.Sprintf("C11 rfc %x %x %s %s %d", b32(randPriv(r)), randMsg(r), extra, version, r.Intn(3)))
 	}
 	// AggregateKeys with caller-supplied WithKeysHash / WithUniqueKeyIndex, both option orders
-	for i := 0; i < g.N(50, 1000); i++ {
+	for i := 0; i < g.N(50, 600); i++ {
 		n := r.Intn(5) + 1
 		var pks []*btcec.PublicKey
 		for _, d := range signerSet(r, n) {
@@ -447,7 +447,7 @@ func genExtra(g *core.Gen) {
 		g.Case("keyaggx:"+class, true, fmt.Sprintf("C11 keyaggx %s %s %s %x %d %s", b01(srt), strings.Join(ks, ","), randTweaks(r, 2), kh, idx, ord))
 	}
 	// concurrency: >= 8 independent deterministic computations at once, three rounds each
-	for i := 0; i < g.N(12, 150); i++ {
+	for i := 0; i < g.N(12, 80); i++ {
 		var subs []string
 		for j := 0; j < 8+r.Intn(5); j++ {
 			d, m := b32(randPriv(r)), randMsg(r)
@@ -477,7 +477,7 @@ func genExtra(g *core.Gen) {
 	}
 	// the same code path from 12 goroutines at once with different inputs (key aggregation with 6..8 keys,
 	// nonce aggregation, DER/pubkey parsing): a package-level scratch buffer is hit with high probability
-	for i := 0; i < g.N(6, 60); i++ {
+	for i := 0; i < g.N(6, 30); i++ {
 		var subs []string
 		for j := 0; j < 12; j++ {
 			switch i % 3 {
